@@ -260,6 +260,7 @@ P["C08"] = {
         K("c08.release.rg", "uio.rs", UIO + "c08_release_rg", "release under interference at the re-register lock: entry written at the tail observed under the lock, tail advances from there", ["io_uring::io::ReadBufPool::release"], kind="rely-guarantee", bounded="pool 4 x 8 bytes"),
         K("c08.readbuf.release_once", "read_buf.rs", RB + "c08_readbuf_release_once", "ReadBuf::release then release/Drop: exactly one buffer re-offered, and it is this ReadBuf's slot; released ReadBuf owns nothing", ["io::read_buf::ReadBuf::release", "io::read_buf::<impl Drop for ReadBuf>::drop"], bounded="pool 4 x 8 bytes"),
         K("c08.map.read", "uio.rs", UIO + "c13_enc_read_pool", "ReadOp with a pool buffer: BUFFER_SELECT from the pool's group; F_BUFFER id => the ReadBuf owns exactly slot id with len n", ["io_uring::io::ReadOp::fill_submission", "io_uring::io::ReadOp::map_ok", "io::read_buf::ReadBuf::buffer_init"], bounded="pool 4 x 8 bytes"),
+        K("c08.pool.new_drop", "uio.rs", UIO + "c08_pool_new_drop", "ReadBufPool::new: PBUF_RING registration of this pool's ring/group, entry i == (base+i*bs, bs, i), tail == pool_size (all buffers offered); refused registration frees and returns the error; Drop unregisters and frees both allocations with the creation layouts", ["io_uring::io::ReadBufPool::new", "io_uring::io::<impl Drop for ReadBufPool>::drop"], bounded="pool_size in {1,2}, buf_size <= 16", tier="thorough"),
         K("c08.map.multishot_read", "uio.rs", UIO + "c08_map_multishot_read", "MultishotReadOp: one ReadBuf per result owning the kernel-chosen slot; no F_BUFFER => empty ReadBuf that gives nothing back", ["io_uring::io::MultishotReadOp::map_next", "io::read_buf::ReadBufPool::new_buffer"], bounded="pool 4 x 8 bytes"),
     ],
 }
@@ -323,6 +324,7 @@ P["C16"] = {
 
 IOM = "io::verif_io::"
 P["C10"] = {
+    "wip": True,
     "level_text": "WORK IN PROGRESS: step contracts of the composite operations from an arbitrary intermediate state.",
     "level_note": "see DESIGN.md",
     "functions": [{"file": "src/io/mod.rs", "fn": r"fn poll_inner\(self: Pin<&mut Self>, ctx: &mut task::Context<'_>\) -> Poll<io::Result<B>> \{\n        // SAFETY: not moving `Future`.\n        let this = unsafe \{ Pin::into_inner_unchecked\(self\) \};\n        let mut write = unsafe \{ Pin::new_unchecked\(&mut this.write\) \};\n        match write.as_mut\(\).poll\(ctx\) \{\n            Poll::Ready\(Ok\(\(_, 0\)\)\) => Poll::Ready\(Err\(io::ErrorKind::WriteZero.into\(\)\)\),\n            Poll::Ready\(Ok\(\(mut buf"}],
@@ -333,9 +335,52 @@ P["C10"] = {
     ],
 }
 
+CFG = "io_uring::config::verif_config::"
+P["C18"] = {
+    "level_text": "Proof on the real Config::build_sys, Shared::new and Completions::new: for every configuration (all booleans, all u32 sizes, optional fields) the parameter block passed to io_uring_setup carries exactly the configuration; and with setup succeeding and every later step free to fail independently - any feature mask, each of the three mmaps, each madvise, the direct-descriptor registration - the result is either queues built from exactly what the kernel granted (sizes, offsets, modes) with exactly three mappings live and the ring fd open, or an error with every mapping unmapped with the (address, length) it was mapped with and the ring fd closed exactly once.",
+    "level_note": "Kernel answers are modelled (sq_entries in {1,2,4}, cq_entries in {1,2,4,8}, offsets <= 64 so the regions fit the harness memory); mmap/munmap/madvise/close are ledger models; std's OwnedFd::drop is replaced by a recording stub (it calls std's private copy of libc close). `attach` (wq_fd of another ring) is not exercised.",
+    "functions": [
+        {"file": "src/io_uring/config.rs", "fn": r"pub\(crate\) fn build_sys\(self\)"},
+        {"file": "src/io_uring/mod.rs", "fn": r"pub\(crate\) fn new\(rfd: OwnedFd, parameters: &libc::io_uring_params\)"},
+        {"file": "src/io_uring/cq.rs", "fn": r"pub\(crate\) fn new\(rfd: RawFd, parameters: &libc::io_uring_params\)"},
+        {"file": "src/io_uring/mod.rs", "fn": r"^fn mmap\("},
+    ],
+    "trusted_base": [KERNEL, LEDGER, KANIBUG, "scan: kani::stub(std::os::fd::OwnedFd::drop -> ledger)"],
+    "assumptions": [],
+    "obligations": [
+        K("c18.params", "config.rs", CFG + "c18_params", "io_uring_params == configuration: flags == SUBMIT_ALL|NO_SQARRAY|(SQPOLL or COOP_TASKRUN)|one bit per option, sizes/cpu/idle in their fields, rest zero; entries argument == sq size; setup error returned, nothing acquired", ["io_uring::config::Config::build_sys"]),
+        K("c18.build.ok_or_unwound", "config.rs", CFG + "c18_build_features_ok", "setup ok, required features present; mmap x3 / madvise x3 / FILES2 registration each free to fail: Ok => 3 mappings (exact lengths, ring fd, ABI offsets), queues use the granted sizes/offsets/modes, sparse table of the requested size registered; Err => all mappings unmapped with their own (addr,len), ring fd closed exactly once", ["io_uring::config::Config::build_sys", "io_uring::Shared::new", "io_uring::cq::Completions::new", "io_uring::mmap", "io_uring::munmap"]),
+        K("c18.build.feature_missing", "config.rs", CFG + "c18_build_feature_missing", "any of NODROP / SUBMIT_STABLE / RW_CUR_POS / SQPOLL_NONFIXED missing: error, nothing mapped, ring fd closed exactly once", ["io_uring::config::Config::build_sys"]),
+        K("c12.shared.new_drop", "uring_mod.rs", U + "c12_shared_new_drop", "Shared::new then Drop (or failing second mapping/madvise): balanced ledger", ["io_uring::Shared::new", "io_uring::<impl Drop for Shared>::drop"]),
+        K("c12.completions.new_drop", "cq.rs", C + "c12_completions_new_drop", "Completions::new then Drop (or failing madvise): balanced ledger, never closes the ring fd", ["io_uring::cq::Completions::new", "io_uring::cq::<impl Drop for Completions>::drop"]),
+    ],
+}
+P["C12"] = {
+    "level_text": "Proof of per-object resource balance on the real code: Ring drop (Completions::drop) performs flush -> REGISTER_SYNC_CANCEL{ANY|ALL} -> fetch -> process in that order tolerating every error; Shared and Completions unmap exactly the regions they mapped (same address and length) and the ring fd is closed last, exactly once; ReadBufPool unregisters its group and frees both allocations with their creation layouts. Every handle's own drop path (AsyncFd drop, SubmissionQueue::wake, ReadBuf release, operation drop) is proved in harnesses in which no Completions object exists at all, i.e. they only touch memory kept alive by Arc<Shared> / the pool.",
+    "level_note": "Permutations of drop order reduce to these per-object contracts because ownership is Arc-shaped (type-level, not re-proved). That every abandoned operation's final completion is posted before the last drain is the kernel contract of REGISTER_SYNC_CANCEL (assumed). Known findings F9/F10 (results delivered to abandoned operations are not disposed of) also affect teardown.",
+    "functions": [
+        {"file": "src/io_uring/cq.rs", "fn": r"pub\(crate\) fn drop\(&mut self, shared: &Shared\)"},
+        {"file": "src/io_uring/mod.rs", "fn": r"^    fn drop\(&mut self\) \{\n        let ptr = self.submissions.cast\(\);"},
+    ],
+    "trusted_base": [KERNEL, LEDGER, KANIBUG, "scan: kani::stub(std::os::fd::OwnedFd::drop -> ledger)"],
+    "assumptions": ["Arc<Shared> keeps the submission mapping and ring fd alive for every handle (Rust ownership)"],
+    "obligations": [
+        K("c12.cq_drop", "cq.rs", C + "c12_cq_drop", "Completions::drop(shared): enter(flush: min_complete MAX, SQ_WAIT iff kernel thread, 1 s) -> register(SYNC_CANCEL, ANY|ALL, 1 s) -> enter(1, GETEVENTS, 0) -> poll processes what that produced; every step may fail (all errnos) without skipping the later ones", ["io_uring::cq::Completions::drop"]),
+        K("c12.shared.new_drop", "uring_mod.rs", U + "c12_shared_new_drop", "Shared: munmap(entries) then munmap(ring) with the mapped lengths, ring fd closed last and once", ["io_uring::<impl Drop for Shared>::drop"]),
+        K("c12.completions.new_drop", "cq.rs", C + "c12_completions_new_drop", "Completions: munmap(ring, ring_len) once; never closes the fd", ["io_uring::cq::<impl Drop for Completions>::drop"]),
+        K("c12.pool.new_drop", "uio.rs", UIO + "c08_pool_new_drop", "ReadBufPool: UNREGISTER_PBUF_RING then dealloc of both allocations with the creation layouts", ["io_uring::io::<impl Drop for ReadBufPool>::drop"], bounded="pool_size in {1,2}", tier="thorough"),
+        K("c12.after_ring.asyncfd_drop", "fd.rs", F + "c07_drop", "AsyncFd drop path needs only Arc<Shared> (no Completions exists in the harness)", ["io_uring::fd::<impl Drop for AsyncFd>::drop"]),
+        K("c12.after_ring.wake", "sq.rs", S + "c11_wake_not_polling", "SubmissionQueue::wake with no ring polling (e.g. dropped): flag only, no system call, no ring entry", ["io_uring::sq::Submissions::wake"]),
+        K("c12.after_ring.readbuf_release", "read_buf.rs", RB + "c08_readbuf_release_once", "ReadBuf release/drop touches only the pool's own memory", ["io::read_buf::ReadBuf::release"], bounded="pool 4 x 8 bytes"),
+        K("c12.after_ring.op_drop", "op.rs", O + "drop_running", "dropping a pending operation needs only Arc<Shared> and the operation's own box", ["io_uring::op::State::drop"]),
+    ],
+}
+
 def main():
     os.makedirs(os.path.join(V, "obligations"), exist_ok=True)
     for pid, p in P.items():
+        if p.get("wip"):
+            continue
         p = dict(p)
         p["property"] = pid
         json.dump(p, open(os.path.join(V, "obligations", pid + ".json"), "w"), indent=1)
